@@ -41,6 +41,13 @@ func (e EvmEngine) bridgeTick(r *Run) (Step, bool) {
 	if txs := e.B.genConfirms(r, c, v, 3); len(txs) > 0 && r.Pct(50) {
 		return Step{Kind: "block", DtMs: 5000, N: 1, Txs: txs}, true
 	}
+	if r.Prop == "C09" && !st.Evm.Bogus && r.Pct(25) {
+		// fault: a result event for a bridge call fxcore never recorded - executing the parked claim
+		// panics inside the keeper, i.e. the precompile call fails in the hardest way
+		st.Evm.Bogus = true
+		r.Fault("bogus-external-result")
+		return Step{Kind: "ext", A: A("chain", c.Name, "op", "bogus_result", "nonce", 900+r.Rng.IntN(50), "success", r.Rng.IntN(2))}, true
+	}
 	if len(v.Pending) > 0 {
 		return Step{Kind: "block", DtMs: 5000, N: 1, Txs: []Tx{{K: "execute_claim_all", S: KeyName("user", r.Rng.IntN(st.NUsers))}}}, true
 	}
